@@ -196,7 +196,7 @@ const (
 	//   0123456789abcdef0123456789abcdef
 	intMode = "" +
 		".........II..I.................." + // 0x00
-		"I.......II.a.a..aaaaaaaaaa......" + // 0x20
+		"I.......II.a.a.aaaaaaaaaaa......" + // 0x20
 		".aaaaaaaaaaaaaaaaaaaaaaaaaa....." + // 0x40
 		".aaaaaaaaaaaaaaaaaaaaaaaaaa......" + // 0x60
 		"................................" + // 0x80
@@ -1229,6 +1229,19 @@ func (r *reader) pushInteger(src []byte) {
 	var obj Object
 	if i, err := strconv.ParseInt(token, r.base, 64); err == nil {
 		obj = Fixnum(i)
+	} else if pos := strings.IndexByte(token, '/'); 0 < pos {
+		// A ratio such as #x1/3 or #7r-13/14.
+		var (
+			num big.Int
+			den big.Int
+		)
+		_, nok := num.SetString(token[:pos], r.base)
+		_, dok := den.SetString(token[pos+1:], r.base)
+		// The denominator has no sign and is not zero.
+		if !nok || !dok || den.Sign() <= 0 || token[pos+1] == '+' {
+			r.raise("%s is not a valid base %d ratio", token, r.base)
+		}
+		obj = NewBigRatio(&num, &den)
 	} else {
 		bi := big.NewInt(0)
 		if _, ok := bi.SetString(token, r.base); ok {
